@@ -252,7 +252,8 @@ const VOCAB: [&str; 64] = [
     "!", "<", ">", "<<", ">>", "++", "--", "&&", "||", "0", "1", "255", "X", "Y",
 ];
 
-const LITERALS: [&str; 14] = [
+const LITERALS: [&str; 22] = [
+    "@99@", "@0@", "\"a\"", "'\u{e9}'", "\"\u{20ac}\"", "/* \u{e9}t\u{e9} */", "bank99999999999", "uc1[\"a\"]",
     "99999999999", "0xfffffffff", "0777777777777", "2147483648", "-2147483648", "0x", "08", "1e5", "'", "''", "'ab'", "\"", "\"\\", "1/0",
 ];
 
@@ -262,8 +263,32 @@ const DIRECTIVES: [&str; 16] = [
 ];
 
 pub fn corpus() -> Vec<String> {
-    // the inputs of the repository's own tests: `let input = "...";`
     let mut out = vec![];
+    // hand-written programs of /verif/corpus and the demonstration inputs kept with the seeded
+    // changes (independent authors, many constructs the generator does not produce)
+    let root = report::verif_root();
+    let mut files: Vec<std::path::PathBuf> = vec![];
+    if let Ok(rd) = std::fs::read_dir(root.join("corpus")) {
+        files.extend(rd.flatten().map(|e| e.path()));
+    }
+    if let Ok(rd) = std::fs::read_dir(root.join("seeded")) {
+        for d in rd.flatten() {
+            if let Ok(inner) = std::fs::read_dir(d.path()) {
+                files.extend(inner.flatten().map(|e| e.path()));
+            }
+        }
+    }
+    files.sort();
+    for f in files {
+        if f.extension().map(|e| e == "c").unwrap_or(false) {
+            if let Ok(t) = std::fs::read_to_string(&f) {
+                if t.len() < 4000 && !t.contains("#include") {
+                    out.push(t);
+                }
+            }
+        }
+    }
+    // the inputs of the repository's own tests: `let input = "...";`
     if let Ok(s) = std::fs::read_to_string("/repo/src/lib.rs") {
         let mut rest = s.as_str();
         while let Some(i) = rest.find("let input = \"") {
@@ -355,6 +380,29 @@ pub fn gen_case(g: &mut G, corpus: &[String], cfg: &GenCfg) -> Case {
             opt |= 4;
         }
         return Case { text: c.source(), opt, mutations: vec![format!("unmutated program of the {} generator", name)] };
+    }
+    if g.chance(1, 60) {
+        // many macros (the tables hold 100 each) with #undef / redefinition around the boundary
+        let n = 97 + g.below(12);
+        let mut t = String::new();
+        for i in 0..n {
+            if g.chance(1, 15) {
+                t.push_str(&format!("#define K{}(a, b) ((a) + (b) + {})\n", i, i));
+            } else {
+                t.push_str(&format!("#define K{} {}\n", i, i % 200));
+            }
+        }
+        let mut muts = vec![format!("{} macros", n)];
+        for _ in 0..1 + g.below(4) {
+            let j = if g.chance(1, 3) { g.below(8) } else { (94 + g.below(12)).min(n - 1) };
+            t.push_str(&format!("#undef K{}\n", j));
+            muts.push(format!("#undef K{}", j));
+            if g.chance(1, 3) {
+                t.push_str(&format!("#define K{} {}\n", j, g.below(100)));
+            }
+        }
+        t.push_str(&format!("char v;\nvoid main()\n{{\n  v = K{} + K{};\n}}\n", 10 + g.below(60), 90 + g.below(5)));
+        return Case { text: t, opt: g.below(4) as u8, mutations: muts };
     }
     let base = if !corpus.is_empty() && g.chance(1, 3) {
         corpus[g.below(corpus.len())].clone()
@@ -584,7 +632,7 @@ pub fn load_known(prop: &str) -> (Known, Vec<String>) {
 }
 
 pub fn run(ctx: &mut RunCtx) -> i32 {
-    let cases = ctx.cases(150_000, 4_000_000);
+    let cases = ctx.cases(120_000, 4_000_000);
     let (known, known_seen) = load_known("C16");
     let corp = corpus();
     let cfg = GenCfg { max_stmts: 4, max_helpers: 2, hw: true, asm_menu: true, ..GenCfg::default() };
